@@ -87,15 +87,21 @@ A schema `CFile` is a list of top-level definitions `CTop` = `// doc` lines + a 
 * `message` (optional `[opcode(…)]`), fields `idx -> Type name;` (decimal index 1 … 255, distinct), with
   `[deprecated]` / doc lines;
 * `enum` with optional base type `: uint8` … and optional `[flags]` line, members `Name = literal;` (decimal,
-  `0x…`, negative literals that fit the base type), with `[deprecated]` / doc lines;
+  `0x…`, negative literals that fit the base type) — in a `[flags]` enum `Name = expression;` over literals,
+  earlier members, `|`, `&`, `<<`, `>>` and parentheses (value: the model's own `parseExpr` / `evalExpr`, which
+  must succeed) — with `[deprecated]` / doc lines;
 * `union` (optional `[opcode(…)]`), members `idx -> struct Name { … }` / `idx -> message Name { … }`
   (index 0 … 255, distinct) with their bodies indented one more tab, with `[deprecated]` / doc lines;
-* `const type name = literal;` for integer literals (integer / float types), `true` / `false`, plain strings
-  (including the `go_package` constant, which sets `File.goPackage`);
+* `const type name = literal;` for integer literals (integer / float types), float literals `[-]d+.d+`, `inf`,
+  `-inf`, `nan` (float types), `true` / `false`, plain strings (including the `go_package` constant, which sets
+  `File.goPackage`), guids;
 * `import "path"`.
-`CFileOk f` is its well-formedness (identifiers, literals that the parser accepts, distinct indices, doc
-lines without CR / LF and — inside struct / message / union bodies — not of the `[tag(…)]` form, no doc
-lines on an import, and no doc lines directly after a constant: see finding F1 in the report).
+`CFileOkP f` is its well-formedness for the parser theorems (identifiers, literals that the parser accepts,
+distinct indices, doc lines without CR / LF — inside struct / message / union bodies they may be tag comments
+`[tag(key)]` / `[tag(key:"plain value")]`, which the denotation turns into `tags` — no doc lines on an import,
+and no doc lines directly after a constant: finding F1); `CFileOk f` moreover excludes trailing comments after
+message fields, which the formatter moves (finding F2): it is the hypothesis of the C16 / C17 theorems.
+`cfileOkB` / `cfileOkPB` (Bebop/Proofs/Canon/Check.lean) are executable checkers with soundness lemmas.
 `denote f` is the `File` it denotes (definitions grouped by kind in source order; numbers evaluated with
 the model's `strconv` functions; doc lines joined by line breaks as `comment`).
 `canonTextF f` is its canonical text (`= fileText false f`, spelled out construct by construct in Lang.lean);
@@ -112,7 +118,20 @@ by induction over definitions, fields, types, with explicit fuel accounting. -/
 /-- C11 (extended sub-language, every layout): the parser returns exactly the denoted `File`. -/
 theorem C11_schema_layout_partial (f : CFile) (hf : CFileOk f) (w : Nat → List Byte)
     (hw : LayoutOk w (fileLex false f)) : readFile (laidOutF w f) false = .ok (denote f) :=
+  readFile_schema f hf.1 w hw
+
+/-- C11 for the larger language of the parser theorems (`CFileOkP`): moreover trailing `// comments` after
+    message fields, which the parser skips (the formatter moves them — finding F2 — so the C16 / C17 theorems
+    exclude them). -/
+theorem C11_schema_layout_trailing_partial (f : CFile) (hf : CFileOkP f) (w : Nat → List Byte)
+    (hw : LayoutOk w (fileLex false f)) : readFile (laidOutF w f) false = .ok (denote f) :=
   readFile_schema f hf w hw
+
+/-- … and for its canonical spelling. -/
+theorem C11_schema_canonical_trailing_partial (f : CFile) (hf : CFileOkP f) :
+    readFile (canonTextF f) false = .ok (denote f) := by
+  rw [canonTextF_eq]
+  exact readFile_schema f hf _ (canonW_layoutOk f hf)
 
 /-- C16 (extended sub-language, every layout): the formatter emits the canonical text. -/
 theorem C16_schema_layout_partial (f : CFile) (hf : CFileOk f) (w : Nat → List Byte)
@@ -123,13 +142,13 @@ theorem C16_schema_layout_partial (f : CFile) (hf : CFileOk f) (w : Nat → List
 theorem C11_schema_canonical_partial (f : CFile) (hf : CFileOk f) :
     readFile (canonTextF f) false = .ok (denote f) := by
   rw [canonTextF_eq]
-  exact readFile_schema f hf _ (canonW_layoutOk f hf)
+  exact readFile_schema f hf.1 _ (canonW_layoutOk f hf.1)
 
 /-- C17 (extended sub-language): the canonical text is a fixpoint of the formatter. -/
 theorem C17_schema_canonical_partial (f : CFile) (hf : CFileOk f) :
     format (canonTextF f) = some (canonTextF f) := by
   conv => lhs; rw [canonTextF_eq]
-  exact format_schema f hf _ (canonW_layoutOk f hf)
+  exact format_schema f hf _ (canonW_layoutOk f hf.1)
 
 /-- C16 + C17 (extended sub-language, every layout): formatting preserves the meaning, its output is a
     fixpoint, and formatting is idempotent. -/
@@ -140,7 +159,7 @@ theorem C16_C17_schema_layout_partial (f : CFile) (hf : CFileOk f) (w : Nat → 
       (format (laidOutF w f) >>= format) = format (laidOutF w f) := by
   refine ⟨canonTextF f, format_schema f hf w hw, ?_, C11_schema_canonical_partial f hf,
     C17_schema_canonical_partial f hf, ?_⟩
-  · rw [C11_schema_canonical_partial f hf, readFile_schema f hf w hw]
+  · rw [C11_schema_canonical_partial f hf, readFile_schema f hf.1 w hw]
   · rw [format_schema f hf w hw]
     exact C17_schema_canonical_partial f hf
 
@@ -161,7 +180,7 @@ theorem canonTextF_spelled_out (f : CFile) : canonTextF f = fileText false f := 
 /-- The canonical text is the laid-out text of its own (admissible) layout. -/
 theorem canonTextF_is_laidOut (f : CFile) (hf : CFileOk f) :
     canonTextF f = laidOutF (canonW (fileLex false f)) f ∧ LayoutOk (canonW (fileLex false f)) (fileLex false f) :=
-  ⟨canonTextF_eq f, canonW_layoutOk f hf⟩
+  ⟨canonTextF_eq f, canonW_layoutOk f hf.1⟩
 
 /-- The struct-only sub-language of the first part is a special case of the extended one: same canonical
     text, same denoted `File`, well-formedness carries over — so `C11_structs_canonical_partial`,
@@ -192,10 +211,16 @@ def exSchema : CFile := [
   { d := .const (strOf "Limit") (.int (strOf "int32") (strOf "-5")) },
   { d := .const (strOf "Debug") (.bool true) },
   { d := .const (strOf "Quiet") (.bool false) },
+  { d := .const (strOf "Ratio") (.float (strOf "float32") true (strOf "12") (strOf "05")) },
+  { d := .const (strOf "Top") (.inf (strOf "float64")) },
+  { d := .const (strOf "Bottom") (.negInf (strOf "float64")) },
+  { d := .const (strOf "Unknown") (.nan (strOf "float32")) },
+  { d := .const (strOf "Id") (.guid (strOf "01234567-89ab-cdef-0123-456789abcdef")) },
   { d := .struct (some (.str (strOf "ABCD"))) false (strOf "Empty") [] },
   { doc := [strOf " A point.", strOf " Second line."],
     d := .struct (some (.num (strOf "0x1234"))) true (strOf "Point") [
-      { doc := [strOf " horizontal"], dep := none, ty := .name (strOf "int32") 0, name := strOf "x",
+      { doc := [strOf " horizontal", strOf "[tag(json)]", strOf "[tag(db:\"col x\")]"], dep := none,
+        ty := .name (strOf "int32") 0, name := strOf "x",
         trail := some (strOf " pixels") },
       { dep := some (strOf "use x"), ty := .name (strOf "float32") 2, name := strOf "grid" },
       { dep := none, ty := .array (.name (strOf "Point") 0) 0, name := strOf "kids" },
@@ -207,13 +232,16 @@ def exSchema : CFile := [
       { doc := [strOf " old"], dep := some (strOf "gone"), idx := strOf "200", ty := .name (strOf "Point") 1,
         name := strOf "pts" }] },
   { d := .enum false (strOf "Color") (some (strOf "int16")) [
-      { dep := none, name := strOf "Red", lit := strOf "1" },
-      { doc := [strOf " hex"], dep := none, name := strOf "Green", lit := strOf "0x10" },
-      { dep := some (strOf "no"), name := strOf "Blue", lit := strOf "-3" }] },
+      { dep := none, name := strOf "Red", val := [.lit (strOf "1")] },
+      { doc := [strOf " hex"], dep := none, name := strOf "Green", val := [.lit (strOf "0x10")] },
+      { dep := some (strOf "no"), name := strOf "Blue", val := [.lit (strOf "-3")] }] },
   { doc := [strOf " bits"],
     d := .enum true (strOf "Perm") none [
-      { dep := none, name := strOf "Read", lit := strOf "1" },
-      { dep := none, name := strOf "Write", lit := strOf "0x2" }] },
+      { dep := none, name := strOf "Read", val := [.lit (strOf "1")] },
+      { dep := none, name := strOf "Write", val := [.lit (strOf "0x2")] },
+      { dep := none, name := strOf "All", val := [.ref (strOf "Read"), .bar, .ref (strOf "Write")] },
+      { dep := none, name := strOf "Big", val := [.lp, .ref (strOf "Read"), .shl, .lit (strOf "4"), .rp, .amp,
+                                                   .lp, .lp, .lit (strOf "0xff"), .rp, .rp, .shr, .lit (strOf "1")] }] },
   { d := .union (some (.num (strOf "7"))) (strOf "Shape") [
       .struct [strOf " a circle"] none (strOf "1") (strOf "Circle") [
         { doc := [strOf " radius"], dep := none, ty := .name (strOf "float64") 0, name := strOf "r",
@@ -243,6 +271,18 @@ theorem exLayout_ok : LayoutOk exLayout (fileLex false exSchema) := by
     split
     · simp
     · split <;> simp
+
+/-- A schema of the larger language of the parser theorems: a trailing comment after a message field. -/
+def exSchemaP : CFile := [
+  { d := .message none (strOf "Msg") [
+      { dep := none, idx := strOf "1", ty := .name (strOf "string") 0, name := strOf "title",
+        trail := some (strOf " shown in the header") },
+      { dep := none, idx := strOf "2", ty := .name (strOf "int32") 0, name := strOf "size" }] }]
+
+theorem exSchemaP_ok : CFileOkP exSchemaP := cfileOkPB_sound (by decide)
+
+example : readFile (canonTextF exSchemaP) false = .ok (denote exSchemaP) :=
+  C11_schema_canonical_trailing_partial exSchemaP exSchemaP_ok
 
 /-- Non-vacuity: the theorems instantiated at `exSchema` / `exLayout` (nothing is evaluated here). -/
 example : readFile (laidOutF exLayout exSchema) false = .ok (denote exSchema) :=
